@@ -77,6 +77,10 @@ def gen_s2(tier, seed):
                                             savegr = bool((tag + ti + nd // 20) % 2)
                                             yield {"d": d, "cell": cell, "N": N, "spread": spread, "tag": tag, "F": F, "rd": rd, "nd": nd,
                                                    "ppp": m, "sig": sk, "types": types, "savegr": savegr, "seed": seed}
+                                            if F == 2 and K == 2 and list(types) != list(types)[::-1]:
+                                                # species change between frames (swap moves): frame 1 carries the reversed labels
+                                                yield {"d": d, "cell": cell, "N": N, "spread": spread, "tag": tag, "F": F, "rd": rd, "nd": nd,
+                                                       "ppp": m, "sig": sk, "types": types, "savegr": savegr, "seed": seed, "swap": True}
 
 
 def run_s2(case):
@@ -94,7 +98,10 @@ def run_s2(case):
            "savegr": case["savegr"]}
     refs, grs = [], []
     partial = False
-    for p in frames:
+    types_f = [list(types) if (f % 2 == 0 or not case.get("swap")) else list(types)[::-1] for f in range(len(frames))]
+    sig["types_change"] = bool(case.get("swap"))
+    for f_, p in enumerate(frames):
+        types = types_f[f_]
         tm = min(frac_tie_margin(p - p[i], H, ppp) for i in range(N))
         s2, info = G.ref_s2(p, H, types, sigm, ppp, rd, nd)
         if tm < 1e-9 or info["margin"] < 1e-9 or min(info["nneigh"]) == 0 or not (info["gmin"] > 1e-290):
@@ -104,7 +111,10 @@ def run_s2(case):
         if case["savegr"]:
             grs.append(G.ref_s2_gr(p, H, types, sigm, ppp, rd, nd))
     refs = np.array(refs)
-    snaps = mk_snaps([p.tolist() for p in frames], H, types)
+    from PyMatterSim.reader.reader_utils import Snapshots
+    from mc.ref.base import mk_snap
+
+    snaps = Snapshots(len(frames), [mk_snap(p.tolist(), H, types_f[f_], ts=100 * f_) for f_, p in enumerate(frames)])
     before = [s.positions.copy() for s in snaps.snapshots]
     out = S2(snaps, sigm, ppp, rd, nd).particle_s2(savegr=case["savegr"])
     if case["savegr"]:
